@@ -378,3 +378,49 @@ fn c12_step_interest_bitfield() {
     kani::assume(e >= 6 && e <= 8);
     manager_step(e);
 }
+
+// ---------------------------------------------------------------------------------------------
+// C08: the manager side of "no piece data before a completed handshake".
+
+fn served_without_handshake(known_region: bool) {
+    let n = 3;
+    let m = mk_simple(n, 4, 12);
+    let status = any_statuses(n);
+    // a peer record as created for an incoming connection (`Peer::new(None, ..)`): its id is
+    // set only by handle_init, i.e. when a valid handshake arrived
+    let mut p = fresh_peer(n);
+    let chosen = if kani::any() { Some(kani::any::<usize>() % n) } else { None };
+    let unchoked_num: usize = kani::any();
+    if known_region {
+        // recorded finding: a Bitfield from a peer that never sent a handshake unchokes it
+        let _ = p.handle_bitfield(chosen, unchoked_num);
+    }
+    let idx: usize = kani::any();
+    let cmd = p.handle_request(idx, &status, &m);
+    let served = matches!(cmd, RequestCmd::LoadAndSendPiece { .. });
+    kani::cover!(!served, "request ignored");
+    assert!(!(served && p.id.is_none()), "the manager tells a connection to load and send a piece although that peer never completed a handshake");
+    std::mem::forget(p);
+}
+
+// @prop C08
+// @fn Peer::handle_request
+// @bound a freshly accepted peer (no handshake yet), every status vector over 3 pieces, every requested index
+// @desc a peer that has sent nothing but a Request before its handshake is not served
+#[kani::proof]
+#[kani::unwind(6)]
+fn c08_fresh_peer_request_is_ignored() {
+    served_without_handshake(false);
+}
+
+// @prop C08
+// @known C08-bitfield-before-handshake
+// @known-check although that peer never completed a handshake
+// @fn Peer::handle_bitfield, Peer::handle_request
+// @bound a freshly accepted peer, any Bitfield outcome (chosen piece or none, any slot count), then any Request
+// @desc twin restricted to the recorded finding: a Bitfield received before any handshake unchokes the peer, after which its Requests for owned pieces are served although no handshake was validated
+#[kani::proof]
+#[kani::unwind(6)]
+fn c08_known_bitfield_before_handshake_is_served() {
+    served_without_handshake(true);
+}
